@@ -5,7 +5,7 @@ from common import Check, assert_repo_import, eval_cases, eval_one, canon_tree, 
 import lang_common as LC
 
 IMPORTS = "Base GenThresholds Codebase"
-POOL = ["a", "b", "src", "lib", "x.y", "deep", "é", "a b"]
+POOL = ["a", "b", "src", "lib", "x.y", "deep", "é", "a b", ".ci", "ci", ".a"]
 LANGS3 = ["Python", "C", "JavaScript"]
 
 
@@ -18,14 +18,18 @@ def gen_paths(rng, n):
             comps = base[: rng.randint(0, len(base))] + [rng.choice(POOL) for _ in range(rng.randint(0, 2))]
         else:
             comps = [rng.choice(POOL) for _ in range(depth)]
-        p = "/".join(comps + [rng.choice(["m", "n", "main", "util"]) + rng.choice([".py", ".c", ".js"])])
+        if rng.random() < 0.15:
+            # a file without extension, named like a folder that may exist beside it (build tools: BUILD, src, ...)
+            p = "/".join(comps + [rng.choice(POOL)])
+        else:
+            p = "/".join(comps + [rng.choice(["m", "n", "main", "util"]) + rng.choice([".py", ".c", ".js"])])
         if p not in paths:
             paths.append(p)
     return paths
 
 
 def gen_entry(rng, path):
-    lang = {"py": "Python", "c": "C", "js": "JavaScript"}[path.rsplit(".", 1)[1]]
+    lang = {"py": "Python", "c": "C", "js": "JavaScript"}.get(path.rsplit("/", 1)[-1].rsplit(".", 1)[-1], "Python")
     ms = [rng.choice([1, 5, 14, 15, 16, 30, 31, 45, 60, 61, 90]) for _ in range(rng.choice([0, 1, 2, 3, 5]))]
     return (path, "c" + str(rng.randint(0, 99)), lang, ms)
 
